@@ -369,6 +369,8 @@ def replay(data):
     l1, l2 = np.abs(v).sum(), (v ** 2).sum()
     exp = l2 * np.sign(v) / l1 if l1 > 0 else np.zeros_like(v)
     return bool(np.max(np.abs(out - exp)) > 1e-9 * (1 + l2)), 'drive_pytree(%s) = %s expected %s' % (v.tolist(), out.tolist(), exp.tolist())
+  if kind == 'arith':
+    return aux_arithmetic_bits()
   # aggregators: concrete run with recording
   name, weights = data['name'], data['weights']
   shapes = {k: tuple(s) for k, s in data['shapes'].items()}
@@ -400,6 +402,38 @@ def replay(data):
   if len(set(used)) != len(used):
     msgs.append('keys reused across rounds')
   return bool(msgs), '; '.join(msgs[:3]) or 'agrees'
+
+
+def aux_arithmetic_bits():
+  """Auxiliary CONCRETE run (the arithmetic-coding bit count needs jnp.unique and is outside the symbolic engine):
+  over 3 rounds with different cohorts the reported increment must equal the mean over this round's clients of the
+  documented per-client cost, computed by the real arithmetic_encoding_num_bits on the recorded quantised trees."""
+  c = C()
+  agg = c.uniform_stochastic_quantizer(4, jax.random.PRNGKey(1), 'arithmetic')
+  st = agg.init()
+  rng = np.random.RandomState(0)
+  msgs = []
+  orig = c.uniform_stochastic_quantize_pytree
+  for rnd, (nc, scale) in enumerate([(2, 1.0), (3, 10.0), (1, 0.1)]):
+    got = []
+
+    def rec(params, num_levels, key):
+      out = orig(params, num_levels, key)
+      got.append(out)
+      return out
+    c.uniform_stochastic_quantize_pytree = rec
+    try:
+      cl = [(b'c%d' % i, {'w': jnp.asarray(np.round(rng.randn(6) * scale, 1)), 'b': jnp.asarray(rng.randn(2) * scale)}, 1.0 + i) for i in range(nc)]
+      _, new = agg.apply(cl, st)
+    finally:
+      c.uniform_stochastic_quantize_pytree = orig
+    per_client = [float(sum(c.arithmetic_encoding_num_bits(l) for l in jax.tree_util.tree_leaves(q))) for q in got]
+    exp = sum(per_client) / len(per_client)
+    inc = float(new.num_bits - st.num_bits)
+    if abs(inc - exp) > 1e-3 * max(1.0, exp):
+      msgs.append('round %d: bit increment %.3f, mean per-client arithmetic-coding cost of this round %.3f' % (rnd + 1, inc, exp))
+    st = new
+  return bool(msgs), '; '.join(msgs) or 'agrees'
 
 
 def check_concrete(kind, v, u, out, L):
@@ -467,6 +501,10 @@ def check(run):
     if n <= 2 or thorough:      # n=3 needs minutes of NRA time: thorough tier only
       run_terngrad(run, n, timeout if n <= 2 else 600.0)
     run_drive(run, n, timeout)
+  bad, msg = aux_arithmetic_bits()
+  run.ob('aux-concrete:arithmetic-encoder-bit-accounting(3 rounds)', 'sat' if bad else 'unsat', detail=msg if bad else None, nontrivial=False)
+  if bad:
+    run.violation('agg:uniform:arithmetic-bits', 'uniform quantizer (arithmetic encoder): %s' % msg, {'kind': 'arith'}, True)
   shapes1 = {'a': (2,)}
   shapes2 = {'a': (2,), 'b': ()}
   for name in AGGS:
